@@ -3,6 +3,8 @@ package props
 import (
 	"archive/zip"
 	"bytes"
+	"compress/flate"
+	"hash/crc32"
 	"errors"
 	"fmt"
 	"io"
@@ -104,7 +106,10 @@ func (c06) Gen(r *sim.Rand, c *sim.Case, tier string) {
 	}
 	for i := 0; i < nf; i++ {
 		k := kinds[r.Intn(len(kinds))]
-		ops = append(ops, sim.Op{K: k, I: []int{r.Intn(1000), r.Intn(1000), r.Intn(8), []int{2, 10, 100, 1000, 10000}[r.Intn(5)]}, S: []sim.Str{sim.Str(c06pickPart(r))}})
+		ops = append(ops, sim.Op{K: k, I: []int{r.Intn(1000), r.Intn(1000), r.Intn(18), []int{2, 10, 100, 1000, 10000}[r.Intn(5)]}, S: []sim.Str{sim.Str(c06pickPart(r))}})
+	}
+	if r.Chance(0.08) {
+		ops = append(ops, sim.Op{K: "Z-size", I: []int{r.Intn(1000), r.Intn(4)}})
 	}
 	rd := sim.Op{K: "open", I: []int{r.Intn(2), r.Intn(1000)}} // I[0]: 0 memory, 1 file
 	if rd.I[0] == 0 && r.Chance(0.5) {
@@ -149,6 +154,35 @@ func rezip(names []string, parts map[string][]byte) []byte {
 			continue
 		}
 		_, _ = w.Write(data)
+	}
+	_ = zw.Close()
+	return buf.Bytes()
+}
+
+// rezipLying writes the archive with one entry whose header declares
+// uncompressed size `size` while its (correctly compressed) data is shorter.
+func rezipLying(names []string, parts map[string][]byte, victim string, size uint64) []byte {
+	var buf bytes.Buffer
+	zw := zip.NewWriter(&buf)
+	for _, n := range names {
+		data, ok := parts[n]
+		if !ok {
+			continue
+		}
+		if n != victim {
+			if w, err := zw.Create(n); err == nil {
+				_, _ = w.Write(data)
+			}
+			continue
+		}
+		var comp bytes.Buffer
+		fw, _ := flate.NewWriter(&comp, flate.DefaultCompression)
+		_, _ = fw.Write(data)
+		_ = fw.Close()
+		h := &zip.FileHeader{Name: n, Method: zip.Deflate, CRC32: crc32.ChecksumIEEE(data), CompressedSize64: uint64(comp.Len()), UncompressedSize64: size}
+		if w, err := zw.CreateRaw(h); err == nil {
+			_, _ = w.Write(comp.Bytes())
+		}
 	}
 	_ = zw.Close()
 	return buf.Bytes()
@@ -206,7 +240,24 @@ func producerFault(kind string, data []byte, a, b, variant, n int) []byte {
 			return []byte(strings.Replace(s, "xmlns:w=", "xmlns:x=", 1)) // prefix left undeclared
 		}
 	case "P-place":
-		switch variant % 7 {
+		switch variant % 9 {
+		case 7: // a table without rows (only properties and grid), or an empty table element
+			reTr := regexp.MustCompile(`(?s)<([A-Za-z0-9]+:)?tr[ >].*?</([A-Za-z0-9]+:)?tr>`)
+			if b%2 == 0 && reTr.MatchString(s) {
+				return []byte(reTr.ReplaceAllString(s, ""))
+			}
+			if m := pickMatch(rePara, a); m != nil {
+				return []byte(s[:m[0]] + "<w:tbl/>" + s[m[0]:])
+			}
+		case 8: // rows wrapped in an element the reader does not know
+			if m := pickMatch(reTbl, a); m != nil {
+				t := s[m[0]:m[1]]
+				t = strings.Replace(t, "<w:tr>", "<w:customXml><w:tr>", 1)
+				if i := strings.LastIndex(t, "</w:tr>"); i >= 0 && strings.Contains(t, "<w:customXml>") {
+					t = t[:i] + "</w:tr></w:customXml>" + t[i+len("</w:tr>"):]
+				}
+				return []byte(s[:m[0]] + t + s[m[1]:])
+			}
 		case 0: // a table inside a run
 			if m := pickMatch(reTbl, a); m != nil {
 				return []byte(s[:m[0]] + "<w:p><w:r>" + s[m[0]:m[1]] + "</w:r></w:p>" + s[m[1]:])
@@ -435,7 +486,7 @@ func (p c06) Exec(c *sim.Case, env *Env) []sim.Violation {
 				saves = append(saves, o.Bytes)
 				cur = o.Bytes
 			}
-		case strings.HasPrefix(op.K, "S-"), strings.HasPrefix(op.K, "P-"):
+		case strings.HasPrefix(op.K, "S-"), strings.HasPrefix(op.K, "P-"), strings.HasPrefix(op.K, "Z-"):
 			if cur == nil {
 				if ds := w.Doc(0); ds.Base != nil { // foreign package
 					cur = ds.Base
@@ -538,6 +589,20 @@ func applyFault(op sim.Op, cur []byte, saves [][]byte, st *sim.Stats) []byte {
 	pkg, err := inspect.ReadZip(cur)
 	if err != nil {
 		return out
+	}
+	if op.K == "Z-size" {
+		// a structurally valid archive whose directory declares a size the data does not have
+		names := append([]string{}, pkg.Names...)
+		if len(names) == 0 {
+			return out
+		}
+		victim := names[a%len(names)]
+		size := []uint64{1 << 62, 1 << 63, 0xFFFFFFFE, uint64(len(pkg.Parts[victim])) + 1}[b%4]
+		if size == 0xFFFFFFFE {
+			size = uint64(len(pkg.Parts[victim])) * 3 // a 32-bit lie of moderate size (a multi-gigabyte one would test the machine, not the library)
+		}
+		st.Fault(op.K)
+		return rezipLying(names, pkg.Parts, victim, size)
 	}
 	part := op.Str(0)
 	if _, ok := pkg.Parts[part]; !ok || part == "any" {
